@@ -1148,7 +1148,8 @@ PROP_THEOREMS = {
             "C14_level0_stream_end_means_lossless_partial", "C14_level0_deflate_output_inflates_back_partial",
             "C14_level0_every_deflate_schedule_never_panics_partial",
             "C14_level0_every_deflate_schedule_returns_partial",
-            "C14_level0_finish_works_until_end_or_full_partial", "C14_level0_call_makes_progress_partial"],
+            "C14_level0_finish_works_until_end_or_full_partial", "C14_level0_call_makes_progress_partial",
+            "C14_stream_end_only_after_finish"],
     "C15": ["C15_bound_formula", "C15_bound_monotone", "C15_level0_size_within_bound_partial", "C15_bound_allows_nine_bits_per_byte",
             "C15_bound_dominates_miniz_formula", "C15_level0_output_within_bound"],
 }
